@@ -31,7 +31,7 @@ def run(c, replay):
     # ---- allocator under op sequences with checkpoints / restores / fossil
     okd, lgd, exea = V.build_driver(ctx["sd"], "drv_alloc", objs)
     for k in range(10 if c.tier == "quick" else 200):
-        ops = c12.gen_ops(r, r.choice([120, 400]), r.choice(["alloc", "ckpt", "fossil"]))
+        ops = c12.gen_ops(r, r.choice([120, 400]), r.choice(["alloc", "ckpt", "fossil"]) if k % 3 else "big")
         rc, so, se = V.run([exea], inp="\n".join(o.split("#")[0].strip() for o in ops) + "\n", timeout=120)
         nrun += 1
         if rc != 0 or san(se):
